@@ -557,6 +557,7 @@ func (rn *runner) exec(p *caseProg, emit bool) runResult {
 		}
 		flag := ""
 		if obs == "FAULT" && (stepErr == nil || !strings.Contains(stepErr.Error(), "stack is too big")) {
+			// neither "stack is too big: n vs 2048" nor "invocation stack is too big: n" is flagged
 			flag = " !"
 		}
 		if emit {
@@ -573,6 +574,9 @@ func (rn *runner) exec(p *caseProg, emit bool) runResult {
 			o.Count("op:" + lastOp)
 			if obs == "FAULT" {
 				o.Count("fault:" + faultClass(stepErr))
+				if dumpFaults && stepErr != nil {
+					o.Count("faultmsg:" + p.kind + ":" + trunc(stepErr.Error(), 90))
+				}
 			}
 		}
 		exactness(obs, unwoundAcross, droppedPrims, droppedAll)
@@ -603,6 +607,15 @@ func (rn *runner) exec(p *caseProg, emit bool) runResult {
 	res.refs = v.VerifRefs()
 	res.cyclic = everCyc
 	return res
+}
+
+var dumpFaults bool
+
+func trunc(s string, n int) string {
+	if len(s) > n {
+		return s[:n]
+	}
+	return s
 }
 
 func faultClass(err error) string {
